@@ -26,6 +26,7 @@ CONSTANTS
   Faults,        \* subset of {"cutsrc","endsrc","cutsink"}
   AdvMsgs, MaxAdv, \* adversary: messages that may be injected towards "A", and how many
   Bridgers,      \* endpoints whose application hands its streams to the bridge (C13)
+  MaxNow,        \* virtual time may advance (by one second at a time) up to this value; 0 = time stands still
   MaxHandles,    \* state constraint: handles per endpoint
   MaxCtr         \* state constraint: connect attempts + binds + datagrams in one behaviour
 
@@ -116,6 +117,8 @@ TSinkErr(e) == /\ st.task[e].ph = "run"
                /\ \/ st.sink[e] \in {"cut", "closed"} /\ st' = BeginWd(st, e, FALSE, "ws")
                   \/ st.sink[e] = "softcut" /\ st.outq[e] # <<>>
                      /\ st' = BeginWd([st EXCEPT !.outq[e] = Tail(@)], e, FALSE, "ws")
+TKa(e)    == /\ st.task[e].ph = "run" /\ KaEnabled(st, e)
+             /\ st' = KaStep(st, e)
 TDrop(e)  == /\ st.task[e].ph = "run" /\ st.drops[e] # <<>>
              /\ st' = DropOne(st, e)
 TWd(e)    == /\ st.task[e].ph \notin {"run", "done"}
@@ -128,6 +131,8 @@ AFault(e) ==
      \/ "cutsink" \in Faults /\ st' \in CutSink(st, e)
      \/ "softcut" \in Faults /\ st' \in SoftCutSink(st, e)
 
+ATime == st.now < MaxNow /\ st' \in AdvanceTo(st, st.now + 1)
+
 AAdv ==
   /\ st.advn < MaxAdv
   /\ \E m \in AdvMsgs : st' \in Inject(st, "A", m)
@@ -138,17 +143,18 @@ Next ==
        \/ AShutdown(e) \/ ADropStream(e) \/ ADropMux(e) \/ ACancel(e)
        \/ ASendDgram(e) \/ AGetDgram(e)
        \/ ABindStart(e) \/ ABindPoll(e) \/ ANextBind(e) \/ ABindReply(e) \/ ABindDrop(e)
-       \/ TUnblock(e) \/ TRecv(e) \/ TSend(e) \/ TSinkErr(e) \/ TDrop(e) \/ TWd(e)
+       \/ TUnblock(e) \/ TRecv(e) \/ TSend(e) \/ TSinkErr(e) \/ TKa(e) \/ TDrop(e) \/ TWd(e)
        \/ AFault(e)
        \/ ABridgeStart(e) \/ ABridgePoll(e) \/ ABridgeDrop(e)
   \/ AAdv
+  \/ ATime
 
 Spec == Init /\ [][Next]_vars
 
 (* C08, liveness at design level: a connection task that has left its main loop finishes, whatever the applications
    do -- provided both connection tasks keep being polled and an application whose accept queue is full keeps
    accepting (the receive loop of its task is stalled until it does).  Checked without VIEW. *)
-TaskStep == \E e \in E : TUnblock(e) \/ TRecv(e) \/ TSend(e) \/ TSinkErr(e) \/ TDrop(e) \/ TWd(e)
+TaskStep == \E e \in E : TUnblock(e) \/ TRecv(e) \/ TSend(e) \/ TSinkErr(e) \/ TKa(e) \/ TDrop(e) \/ TWd(e)
 AcceptStep == \E e \in E : AAccept(e)
 FairSpec == Init /\ [][Next]_vars /\ WF_vars(TaskStep) /\ WF_vars(AcceptStep)
 WdTerminates == \A e \in E : (st.task[e].ph \notin {"run", "done"}) ~> (st.task[e].ph = "done")
@@ -217,7 +223,7 @@ DoneResolved ==
 
 (* configuration sets used by the .cfg files *)
 MkCfg(rwnd, thr, ac, dg, bc, rt) ==
-  [rwnd |-> rwnd, thr |-> thr, acceptCap |-> ac, dgCap |-> dg, bindCap |-> bc, retries |-> rt]
+  [rwnd |-> rwnd, thr |-> thr, acceptCap |-> ac, dgCap |-> dg, bindCap |-> bc, retries |-> rt, kaI |-> 0, kaT |-> 0]
 CoreCfgs  == {MkCfg(r, t, 1, 1, 0, 1) : r \in 1..2, t \in 1..3}
 CoreCfgsQ == {MkCfg(r, t, 1, 1, 0, 1) : r \in 1..2, t \in 1..2}
 OneCfg    == {MkCfg(2, 2, 1, 1, 0, 2)}
@@ -236,4 +242,17 @@ DgCfgs    == {MkCfg(1, 1, 1, dg, 0, 1) : dg \in 1..2}
 CancelCfgs == {MkCfg(1, 1, 1, 1, 1, 2)}
 BindCfgs  == {MkCfg(1, 1, 1, 1, bc, 1) : bc \in 0..2}
 LiveCfgs  == {MkCfg(r, t, 1, 1, 0, 1) : r \in 1..3, t \in 1..4}
+(* keepalive: interval 1..2, effective timeout 0 (off) or interval..3 *)
+KaCfgs    == {[MkCfg(1, 1, 1, 1, 0, 1) EXCEPT !.kaI = i, !.kaT = t] : i \in 1..2, t \in 0..3} \cup {MkCfg(1, 1, 1, 1, 0, 1)}
+KaCfgsQ   == {[MkCfg(1, 1, 1, 1, 0, 1) EXCEPT !.kaI = 1, !.kaT = t] : t \in {0, 1, 2}}
+
+(* C16 / C08 at design level, in terms of what the task does when it is polled.  The detector is tick based: a
+   task that gave up had seen more than kaT without a Pong (never earlier), a task that is still in its main loop
+   with a tick due has not been polled since; keepalive off => no Ping ever queued and no such exit. *)
+KaExitSound ==
+  \A e \in E : st.task[e].res = "keepalive" => st.cfg[e].kaI > 0 /\ st.cfg[e].kaT > 0
+KaSilentWhenOff ==
+  \A e \in E : st.cfg[e].kaI = 0 =>
+     /\ \A i \in DOMAIN st.outq[e] : st.outq[e][i].op # "ping"
+     /\ \A i \in DOMAIN st.wire[e] : st.wire[e][i].op # "ping"
 =============================================================================
